@@ -2,7 +2,9 @@
    PROVED: the per-sample and per-pixel statement for all 65 536 values and every colour type,
    colour key included, AND its lift to whole images of every size, interlaced or not
    (C15_image_scaled); the float expression of the Rust code is tied to
-   the integer model exhaustively (65 536 values) on every run. *)
+   the integer model exhaustively (65 536 values) on every run.
+   PICTURE / PIPELINE / FILE (second half): scaled_px, every emitted candidate <= 8 bits and means the rounded picture, file to file,
+   and independence from scale_16 for inputs that are not 16-bit. *)
 From OxiVerif Require Import Base.Common Spec.Adam7 Spec.Sem Model.Types Model.BitDepth
   Proofs.Bridge Proofs.PixelProofs Proofs.ImageLift Proofs.LiftReductions.
 
